@@ -29,9 +29,9 @@ RULE = (
 PROFILE = {
     "atlas": dict(coll=("Jets", ["AntiKt4", "AK10"]), num=["pt", "eta", "nTrk"], vec=["weights", "sumPt"], sub=("constituents", ["pt", "d0", "nHits"]),
                   link=("parent", ["pt", "eta"]), nonnull=False, other=("Tracks", ["InDetTracks"], ["pt", "d0"])),
-    "cms_aod": dict(coll=("Muons", ["muons", "muonsFromCosmics"]), num=["pt", "eta", "nSeg"], vec=[], sub=None,
+    "cms_aod": dict(coll=("Muons", ["muons", "muonsFromCosmics"]), num=["pt", "eta", "nSeg"], vec=["chi2s", "segments"], sub=None,
                     link=("globalTrack", ["pt", "eta"]), nonnull=True, other=("Tracks", ["generalTracks"], ["pt", "eta"])),
-    "cms_miniaod": dict(coll=("Muons", ["slimmedMuons", "otherMuons"]), num=["pt", "eta", "nSeg"], vec=[], sub=None,
+    "cms_miniaod": dict(coll=("Muons", ["slimmedMuons", "otherMuons"]), num=["pt", "eta", "nSeg"], vec=["chi2s", "segments"], sub=None,
                         link=("globalTrack", ["pt", "eta"]), nonnull=True, other=("Vertex", ["offlineSlimmedPrimaryVertices"], ["z", "ndof"])),
 }
 
@@ -132,6 +132,25 @@ class G:
             return f"({val} if {obj}.{v}().Count() >= {k} else {c})", f"({val} if True else {c})"
         return f"({obj}.{v}().Count() > {k} and {val} > {c})", f"(True and {val} > {c})"
 
+    def vec_first_template(self, obj):
+        """First() taken directly on a vector-valued method of the loop object (a collection, not a Select / Where sequence), value used raw"""
+        if not self.p["vec"]:
+            return None
+        v = self.pick(self.p["vec"])
+        val = f"{obj}.{v}().First()"
+        g = self.guard(["none", "ifexp", "ifexp-else", "and", "or", "ifexp"])
+        self.labels.add("vec-First:" + g)
+        c = self.const()
+        if g == "none":
+            return val, None
+        if g == "ifexp":
+            return f"({val} if {obj}.{v}().Count() > 0 else {c})", f"({val} if True else {c})"
+        if g == "ifexp-else":
+            return f"({c} if {obj}.{v}().Count() == 0 else {val})", f"({c} if False else {val})"
+        if g == "or":
+            return f"({obj}.{v}().Count() == 0 or {val} > {c})", f"(False or {val} > {c})"
+        return f"({obj}.{v}().Count() > 0 and {val} > {c})", f"(True and {val} > {c})"
+
     def link_template(self, obj):
         l, ms = self.p["link"]
         m = self.pick(ms)
@@ -219,8 +238,8 @@ def cases(draw, backend):
             else:
                 # a 1-D column of per-object partial values, possibly guarded by a Where
                 s, ms = g.seq("e", main_only=True)
-                t = draw(st.sampled_from(["index", "link", "subfirst", "crossfirst"]))
-                r = {"index": g.index_template, "link": g.link_template, "subfirst": g.sub_first_template, "crossfirst": g.cross_first_template}[t]("o")
+                t = draw(st.sampled_from(["index", "link", "subfirst", "crossfirst", "vecfirst"]))
+                r = {"index": g.index_template, "link": g.link_template, "subfirst": g.sub_first_template, "crossfirst": g.cross_first_template, "vecfirst": g.vec_first_template}[t]("o")
                 if r is None:
                     r = g.link_template("o")
                 cols.append((f"{s}.Select(lambda o: {r[0]})", None if r[1] is None else f"{s}.Select(lambda o: {r[1]})"))
@@ -242,7 +261,7 @@ def cases(draw, backend):
         g.uses.append((acc, b))
         outer = f"e.{acc}({b!r})"
         outer_t = outer
-        if level == "object-where" and g.p["vec"]:
+        if level == "object-where" and g.p["vec"] and not (g.p["nonnull"] and draw(st.booleans())):
             v = g.pick(g.p["vec"])
             k = draw(st.sampled_from([0, 1]))
             outer = f"e.{acc}({b!r}).Where(lambda o: o.{v}().Count() > {k})"
@@ -255,8 +274,8 @@ def cases(draw, backend):
             cols.append((f"j.{l}().{g.pick(ms)}()", None))
         for ci in range(ncols):
             g.want = wants[ci]
-            t = draw(st.sampled_from(["index", "link", "subfirst", "link", "subfirst", "index"]))
-            r = {"index": g.index_template, "link": g.link_template, "subfirst": g.sub_first_template}[t]("j")
+            t = draw(st.sampled_from(["index", "link", "subfirst", "link", "subfirst", "index", "vecfirst"]))
+            r = {"index": g.index_template, "link": g.link_template, "subfirst": g.sub_first_template, "vecfirst": g.vec_first_template}[t]("j")
             if r is None:
                 r = g.link_template("j")
             cols.append(r)
